@@ -385,11 +385,13 @@ func (c *fnCtx) conv(list []ast.Stmt, inBlk bool, depth int) []path {
 				}
 				e, ok1 := st.Lhs[0].(*ast.Ident)
 				b, ok2 := st.Lhs[1].(*ast.Ident)
-				if !ok1 || !ok2 || e.Name == "_" || e.Obj == nil {
+				if !ok1 || !ok2 || (e.Name != "_" && e.Obj == nil) {
 					return cont(unk(c, s, "entry not bound to a fresh variable"))
 				}
 				c.hasEntry = true
-				c.entry = e.Obj
+				if e.Name != "_" {
+					c.entry = e.Obj // a discarded entry (`_`) can never be exited: the IR simply has no Exit
+				}
 				if b.Name != "_" {
 					c.blk = b.Obj
 				}
